@@ -99,11 +99,13 @@ func layoutFeatures(h *harness.H, l *layout) string {
 }
 
 func layerUnary(h *harness.H) {
-	h.AddRule("unary: per case one stored layout (1-6 writer sessions in shuffled order over 5 channels idx/i64/f32/str/u8, file cap in {1,40,64,200 B,1 GB}, irregular spacing, 0-3 DeleteTimeRange, gc, reopen) x every channel x (random mixed sequences of 8-30 commands SeekFirst/SeekLast/SeekLE/SeekGE/Next(span)/Prev(span)/Next(auto)/Prev(auto)/SetBounds with random bounds and auto chunk in {1,2,3,7,20,1e5} + forward/backward traversals with spans {1,3,random,whole,max} and auto chunks); distinct+non-trivial = distinct (layout log, channel, command trace) whose steps returned stored samples at least once")
-	h.Assume("commands are issued as the API documents: a seek first, steps only after a seek that found a domain, a seek after every SetBounds")
-	h.Assume("layouts whose raw stored bytes (read through domain.DB, not through the iterator) differ from the reference model after a DeleteTimeRange are not used (delete exactness is C04); they are counted as layouts_unusable")
+	h.AddRule("unary: per case one stored layout (1-6 writer sessions in shuffled order over 5 channels idx/i64/f32/str/u8, file cap in {1,40,64,200 B,1 GB}, irregular spacing, writer starts before the first sample, data written later against a stored index, 0-3 DeleteTimeRange, gc, reopen) x every channel x (6 [thorough 12] random sequences of 8-30 commands SeekFirst/SeekLast/SeekLE/SeekGE/Next(span)/Prev(span)/Next(auto)/Prev(auto)/SetBounds with random bounds and auto chunk in {1,2,3,7,20,1e5}; every 2nd sequence fixed spans only, every 3rd seeks before each step; spans 1ns..whole range..TimeSpanMax, 1/4 aimed at a domain edge) + forward/backward traversals with spans {1,3,random,whole,max} and auto chunks {1,2,3,7,1e5}; distinct+non-trivial = distinct (layout log, channel, command trace) whose steps returned stored samples at least once")
+	h.Assume("commands are issued as the API documents: a seek first, steps only after a seek that found a domain, a seek after every SetBounds and after a step that left an error")
+	h.Assume("an accumulated Error() is not by itself a refutation; it is one when the reported view holds stored samples that Value() lacks (or Value() holds samples outside the view)")
+	h.Assume("layouts whose raw stored bytes (read through domain.DB, not through the iterator) differ from the reference model, whose data domains are not positionally aligned with / covered by the index, or whose pointer list is out of order after a DeleteTimeRange are not used (C04/C03 matters); they are counted as layouts_unusable")
+	h.Assume("Next/Prev(AutoSpan) issued from a view lying exactly 1 ns outside the bounds is only executed in a child process (layer crash): it kills the process")
 	seqPerChan := h.N(6, 12)
-	parallel(h, "unary", h.N(300, 12000), func(c int) {
+	parallel(h, "unary", h.N(300, 8000), func(c int) {
 		r := h.Rand("unary", c)
 		h.Eval()
 		l, reason := buildLayout(r)
@@ -177,7 +179,7 @@ func layerUnary(h *harness.H) {
 // several channels, with one shadow unary iterator per channel that reports the view.
 func layerStream(h *harness.H) {
 	h.AddRule("stream: per case one layout x 4 random sequences through cesium.Iterator over 2-5 channels, each step compared per channel with the model's samples inside the view a shadow unary iterator reports for the same command; every returned series also checked against its own TimeRange")
-	parallel(h, "stream", h.N(150, 6000), func(c int) {
+	parallel(h, "stream", h.N(150, 4000), func(c int) {
 		r := h.Rand("stream", c)
 		h.Eval()
 		l, reason := buildLayout(r)
